@@ -7,7 +7,7 @@ from vrf.propkit import run_pyvc, pool_map, contracts_for, link_bounded_witness,
 META = {
     "level": "proof",
     "technique": "contract-based deductive verification: ghost execution counter and an abstract backend store on the real Cache._ctx_get_or_create / _get_cache_kw / get_or_create / set / get / invalidate / invalidate_body / invalidate_def / invalidate_closure against the documented CacheImpl interface contract; VCs from their AST discharged by z3/cvc5",
-    "level_text": "For all keys, stores, argument dicts and contexts: with cache_enabled the creation function runs exactly when the backend has no value for the key and a stored value is returned unchanged; with cache_enabled false it runs every time and the backend is not consulted; the backend receives Template.cache_args overridden by the given arguments, frozen per section on first use, plus the context exactly when the backend asks for it; invalidate_* remove exactly the named section's entry and run no body; Template.cache_args is never modified.",
+    "level_text": "For all keys, stores, argument dicts and contexts: with cache_enabled the creation function runs exactly when the backend has no value for the key and a stored value is returned unchanged; with cache_enabled false it runs every time and the backend is not consulted; the backend receives Template.cache_args overridden by the given arguments, frozen per section on first use, plus the context exactly when the backend asks for it; invalidate_* remove exactly the named section's entry, reach the backend with that section's own frozen arguments, and run no body; Template.cache_args is never modified.",
     "level_note": "The code generator's side (which key, which arguments, timeout conversion, what a cached section writes/returns) is outside the contracts and covered by the bounded op-sequence monitor and the argument-recording run only. Assumed: the documented CacheImpl API as the interface contract (get_or_create returns the stored value or calls the creation function once and stores it); Beaker and dogpile themselves are third-party code exercised only by the bounded monitor. Known finding: two URIs that differ only in non-word characters share one cache id.",
 }
 
